@@ -59,11 +59,11 @@ class Settings:
     def merge(old: Settings, new: Settings) -> Settings:
         if not old.disable_all and new.disable_all:
             enable = new.enable
-            disable = set()
+            disable = new.disable
 
         elif not old.enable_all and new.enable_all:
             disable = new.disable
-            enable = set()
+            enable = new.enable
 
         else:
             disable = old.disable | new.disable
